@@ -303,7 +303,7 @@ pub enum NextItem {
 }
 
 /// The grammar recurses once per nested parenthesis or prefix operator
-const MAX_NESTING: usize = 256;
+const MAX_NESTING: usize = 64;
 
 /// Tells whether an expression on the line is nested deeper than MAX_NESTING levels; such a line
 /// is not handed to the grammar, it would exhaust the stack
@@ -312,13 +312,17 @@ fn nested_too_deep(line: &str) -> bool {
     let mut run = 0usize;
     let mut chain = 0usize;
     let mut in_string = false;
+    let mut quote = '"';
     let mut previous = ' ';
     for c in line.chars() {
         if in_string {
-            in_string = c != '"';
+            in_string = c != quote;
         } else {
             match c {
-                '"' => in_string = true,
+                '"' | '\'' => {
+                    in_string = true;
+                    quote = c;
+                }
                 ';' => break,
                 '/' if previous == '/' => break,
                 '(' => {
